@@ -75,6 +75,38 @@ for it in range(N):
         exp.extend("k%d" % j for j in range(len(kids)))
     if list(order) != exp:
         fails.append(dict(clause="strategy-run", observed=repr(order)[:400], expected=repr(exp)[:400]))
+# ---- Require: predicate on a temp entry, default when absent or None
+from bt.algos import Require, RunIfOutOfBounds
+class T0(object):
+    def __init__(self, temp): self.temp = temp
+for it in range(max(20, N // 10)):
+    ifn = rnd.choice([True, False]); state = rnd.choice(["absent", "none", "present"]); ret = rnd.choice(RETS)
+    calls = []
+    pred = lambda x: (calls.append(x), ret)[1]
+    temp = {} if state == "absent" else {"item": None if state == "none" else ["x"]}
+    got = Require(pred, "item", if_none=ifn)(T0(temp)); evals += 1
+    want = ret if state == "present" else ifn
+    if got is not want and got != want or (len(calls) != (1 if state == "present" else 0)): fails.append(dict(clause="Require", state=state, if_none=ifn, ret=repr(ret), got=repr(got), calls=len(calls)))
+# ---- RunIfOutOfBounds on real trees: True exactly when a held target deviates by more than the tolerance (relative)
+import numpy as np, pandas as pd
+rs = np.random.RandomState(SEED)
+for it in range(max(20, N // 10)):
+    k = int(rs.randint(2, 5)); names = ["c%d" % j for j in range(k)]
+    idx = pd.date_range("2020-01-01", periods=3)
+    data = pd.DataFrame(100.0 + rs.rand(3, k), index=idx, columns=names)
+    s = Strategy("s", [], children=names)
+    s.setup(data); s.adjust(1e6); s.update(idx[0])
+    w = rs.dirichlet(np.ones(k)) * 0.9
+    for n_, w_ in zip(names, w): s.rebalance(float(w_), n_, update=False)
+    s.update(idx[0])
+    tol = float(rs.choice([0.05, 0.2, 0.5]))
+    tgt = {n_: float(s[n_].weight * (1 + rs.choice([-1, 1]) * rs.uniform(0, 2 * tol))) for n_ in names if rs.rand() < 0.8}
+    s.temp["weights"] = dict(tgt)
+    got = RunIfOutOfBounds(tol)(s); evals += 1
+    want = any(abs((s[n_].weight - t) / t) > tol for n_, t in tgt.items())
+    if bool(got) != want: fails.append(dict(clause="RunIfOutOfBounds", tolerance=tol, got=bool(got), want=want, deviations=[float(abs((s[n_].weight - t) / t)) for n_, t in tgt.items()]))
+    s.temp.pop("weights"); evals += 1
+    if RunIfOutOfBounds(tol)(s) is not True: fails.append(dict(clause="RunIfOutOfBounds/no-weights-is-True"))
 print("JSON:" + json.dumps(dict(evaluations=evals, distinct=len(distinct), failures=fails[:5], samples=samples,
-      rule="random stacks (0-7 spy algos, returns drawn from True/False/0/1/None/''/'x', run_always unset/True/False), Or branch lists, Strategy.run with 0-3 child strategies and 1-3 runs; distinct = distinct (truthiness pattern, flag pattern) pairs",
+      rule="random stacks (0-7 spy algos, returns drawn from True/False/0/1/None/''/'x', run_always unset/True/False), Or branch lists, Strategy.run with 0-3 child strategies and 1-3 runs; Require over absent/None/present entries; RunIfOutOfBounds on real trees against the recomputed relative deviations; distinct = distinct (truthiness pattern, flag pattern) pairs",
       bound="%d random cases per clause family, stacks up to 7 algos" % N)))
